@@ -71,6 +71,23 @@ pub async fn dump(app: &Arc<AppShareData>) -> anyhow::Result<Value> {
             cfg.insert(format!("{}|{}|{}", it.tenant, it.group, it.data_id), Value::Object(entry));
         }
     }
+    // ---- persistent service instances (registry dump hook; only what a query serves: address, weight, enabled,
+    //      health, metadata - no timestamps, no connection ids)
+    let mut nam = Map::new();
+    let nd: Value = serde_json::from_str(&app.naming_addr.send(rnacos::verif_hooks::DumpNaming).await?)?;
+    for svc in nd["services"].as_array().cloned().unwrap_or_default() {
+        for i in svc["instances"].as_array().cloned().unwrap_or_default() {
+            if i["ephemeral"] == json!(false) {
+                let key = format!("{}|{}|{}|{}:{}", svc["namespace"].as_str().unwrap_or(""), svc["group"].as_str().unwrap_or(""),
+                    svc["service"].as_str().unwrap_or(""), i["ip"].as_str().unwrap_or(""), i["port"]);
+                nam.insert(key, json!({"weight": i["weight"], "enabled": i["enabled"], "healthy": i["healthy"], "metadata": i["metadata"],
+                    "listed_perpetual": svc["perpetual"].as_array().map(|p| p.contains(&json!(format!("{}:{}", i["ip"].as_str().unwrap_or(""), i["port"]))))}));
+            }
+        }
+    }
+    // (the registry is asked BEFORE the namespace actor: a service created by an applied request announces its namespace to
+    //  the namespace actor with a message of its own - once the registry has answered, that notice is in the namespace
+    //  actor's mailbox ahead of the listing query below.  The configs above are asked first for the same reason.)
     // ---- namespaces
     let mut ns = Map::new();
     if let NamespaceQueryResult::List(list) = app.namespace_addr.send(NamespaceQueryReq::List).await?? {
@@ -105,20 +122,6 @@ pub async fn dump(app: &Arc<AppShareData>) -> anyhow::Result<Value> {
     let sdb: Addr<SequenceDbManager> = app.sequence_db_manager.clone();
     for (k, v) in sdb.send(rnacos::verif_hooks::DumpSequences).await? {
         seq.insert(k, json!(v));
-    }
-    // ---- persistent service instances (registry dump hook; only what a query serves: address, weight, enabled,
-    //      health, metadata - no timestamps, no connection ids)
-    let mut nam = Map::new();
-    let nd: Value = serde_json::from_str(&app.naming_addr.send(rnacos::verif_hooks::DumpNaming).await?)?;
-    for svc in nd["services"].as_array().cloned().unwrap_or_default() {
-        for i in svc["instances"].as_array().cloned().unwrap_or_default() {
-            if i["ephemeral"] == json!(false) {
-                let key = format!("{}|{}|{}|{}:{}", svc["namespace"].as_str().unwrap_or(""), svc["group"].as_str().unwrap_or(""),
-                    svc["service"].as_str().unwrap_or(""), i["ip"].as_str().unwrap_or(""), i["port"]);
-                nam.insert(key, json!({"weight": i["weight"], "enabled": i["enabled"], "healthy": i["healthy"], "metadata": i["metadata"],
-                    "listed_perpetual": svc["perpetual"].as_array().map(|p| p.contains(&json!(format!("{}:{}", i["ip"].as_str().unwrap_or(""), i["port"]))))}));
-            }
-        }
     }
     // ---- replicated cache: the candidate keys of the drivers (the manager has no listing query)
     let mut cch = Map::new();
